@@ -711,6 +711,13 @@ def str_method(I, v, name, args, kw):
                                   z3.IndexOf(s, a.t, r + 1) == -1)))
         return VInt(r)
     if name in ("decode", "encode"):
+        if name == "decode" and v.is_bytes and not args and getattr(I.cset, "decode_may_fail", False):
+            # opt-in (per contract set): bytes.decode() fails for input that is not UTF-8.  Which byte strings are
+            # well-formed is left open except that pure ASCII always decodes (so a counterexample needs a byte >= 0x80)
+            ok = z3.Function("py_utf8_ok", z3.StringSort(), z3.BoolSort())
+            I.ctx.assume(z3.Implies(z3.InRe(s, z3.Star(z3.Range(chr(0), chr(0x7f)))), ok(s)))
+            if not I.ctx.branch(ok(s)):
+                I.raise_("UnicodeDecodeError", VStr(z3.StringVal("utf-8")))
         return VStr(s, name == "encode")
     if name == "split" and len(args) == 1 and _lit(I.force(args[0])):
         # split on a literal separator: case split on the number of occurrences (0, 1, more)
